@@ -244,6 +244,8 @@ fn parse_case(line: &str) -> Option<Case> {
     let mut fams = Vec::new();
     // one Arc<Source> belongs to one (session, family): reject a source used with two families
     let mut src_fam: HashMap<u64, Fam> = HashMap::new();
+    // one established session per peer at a time: (address, family) -> source announcing since the last session end
+    let mut live: HashMap<(IpAddr, Fam), u64> = HashMap::new();
     let note = |f: Fam, fams: &mut Vec<Fam>| {
         if !fams.contains(&f) {
             fams.push(f)
@@ -264,6 +266,13 @@ fn parse_case(line: &str) -> Option<Case> {
                 note(Fam::parse(&a[1])?, &mut fams);
                 if *src_fam.entry(a[0].as_u64()?).or_insert(Fam::parse(&a[1])?) != Fam::parse(&a[1])? {
                     return None;
+                }
+                {
+                    let sid = a[0].as_u64()?;
+                    let key = (srcs[sid as usize].remote_addr, Fam::parse(&a[1])?);
+                    if *live.entry(key).or_insert(sid) != sid {
+                        return None;
+                    }
                 }
                 Net::parse(&a[2])?;
                 u32v(&a[3])?;
@@ -289,6 +298,13 @@ fn parse_case(line: &str) -> Option<Case> {
                 if *src_fam.entry(a[0].as_u64()?).or_insert(Fam::parse(&a[1])?) != Fam::parse(&a[1])? {
                     return None;
                 }
+                {
+                    let sid = a[0].as_u64()?;
+                    let key = (srcs[sid as usize].remote_addr, Fam::parse(&a[1])?);
+                    if *live.entry(key).or_insert(sid) != sid {
+                        return None;
+                    }
+                }
                 Net::parse(&a[2])?;
                 u32v(&a[3])?;
             }
@@ -296,8 +312,9 @@ fn parse_case(line: &str) -> Option<Case> {
                 if a.len() != 2 {
                     return None;
                 }
-                small(&a[0])?;
+                let addr = small(&a[0])?;
                 note(Fam::parse(&a[1])?, &mut fams);
+                live.remove(&(peer_addr(addr), Fam::parse(&a[1])?));
             }
             "dstale" | "dllgr" | "dnollgr" => {
                 if a.len() != 3 {
@@ -311,6 +328,10 @@ fn parse_case(line: &str) -> Option<Case> {
                     }
                     // a purge of a peer may only be handed the counter of a session of that peer
                     if srcs[s as usize].remote_addr != peer_addr(addr) {
+                        return None;
+                    }
+                    // ... and only when that session is the peer's only one (purges settle by address)
+                    if srcs.iter().enumerate().any(|(i, x)| i != s as usize && x.remote_addr == peer_addr(addr)) {
                         return None;
                     }
                 }
